@@ -477,7 +477,10 @@ class Check(PropertyCheck):
                   "ambiguity class: CL+TE, differing or malformed CL, unknown / misplaced / repeated coding, non-chunked request "
                   "coding, TE on HTTP/1.0, TE on 1xx/204), bad_field_name_rejected and lines_ambiguous_rejected (the same for the raw "
                   "head lines as BOTH readers see them: whatever _read_headers accepts and the strict reader — which represents folded "
-                  "and padded values differently — calls ambiguous, validate_headers rejects); the whitelist lemma parseTE_codings (what "
+                  "and padded values differently — calls ambiguous, validate_headers rejects) and raw_ambiguous_rejected (the same on raw bytes: if the strict reader finds the request "
+                  "at the front of a byte stream ambiguous, what mitmproxy reads from the same bytes with h11 maybe_extract_lines + "
+                  "read_request_head is refused by validate_headers; extractLines_of_headLines and splitWs_of_requestLine show that the "
+                  "two readers split head and request line identically); the whitelist lemma parseTE_codings (what "
                   "parse_transfer_encoding accepts is read by the reference reader as exactly the codings of the whitelist entry); "
                   "forward_request_roundtrip_nofold (for every request validate_headers accepts — from the wire or after addon edits — "
                   "with whitespace-free request-line parts, fold-free values and a body consistent with the headers, the reference "
